@@ -124,6 +124,34 @@ def run(ctx):
         if 1e-6 < w_main < 0.999: ctx.nontrivial((tuple(ss), tuple(bs), tuple(ns), mu, ts, flags))
         ctx.tally('test_stat', ts); ctx.tally('flags', ''.join('1' if f else '0' for f in flags)); ctx.tally('nbins/nch', f'{nb}/{nch}')
         if i < 2: ctx.sample({'case': inp, 'result_layout': desc, 'main': main, 'analytic': w_main})
+    # ---------------- on/off models (a background normalisation profiled in closed form): whose flags decide what is held constant?
+    # (a) nothing declared: profiled; (b) the normalisation declared constant by the measurement and the caller passing all-False flags:
+    # profiled all the same (the caller's flags are used as given); (c) declared constant, no caller flags: constant at its initial value
+    # (= a two-bin signal-strength-only model); (d) the caller holding it constant on a model that declares nothing: as (c)
+    for i in range(ctx.n(12, 300)):
+        s_ = rng.choice([5.0, 8.0, 12.0]); b_ = rng.choice([30.0, 50.0, 80.0]); tau = rng.choice([1.0, 2.0, 3.0])
+        fl_ = np.random.RandomState(rng.randrange(2**31))
+        n_ = float(fl_.poisson(b_ + rng.choice([0.0, 0.5, 1.0]) * s_)); m_ = float(max(1, fl_.poisson(tau * b_ * rng.choice([0.8, 1.0, 1.2]))))
+        mu = rng.choice([0.5, 1.0, 2.0])
+        variant = 'abcd'[i % 4]
+        spec = counting.onoff_spec(s_, b_, tau, k_fixed={'a': None, 'b': True, 'c': True, 'd': None}[variant])
+        m = pyhf.Model(spec, poi_name='mu')
+        order = list(m.config.par_order)                                            # ['k_bkg', 'mu']
+        kw = {'b': {'fixed_params': [False, False]}, 'd': {'fixed_params': [nm == 'k_bkg' for nm in order]}}.get(variant, {})
+        data = [m_, n_]                                                             # channels in sorted order: CR, SR
+        inp = {'spec': spec, 'data': data, 'mu': mu, 'variant': variant, 'kwargs': kw}
+        try:
+            obs_, band_ = pyhf.infer.hypotest(mu, data, m, return_expected_set=True, **kw)
+        except Exception as e:  # noqa
+            ctx.fail('C08/onoff-exception', f'hypotest raised {type(e).__name__} on an on/off model', inp, str(e)[:200]); continue
+        ctx.count(); ctx.tally('onoff_variant', variant)
+        if variant in 'ab': w_obs, w_band, _ = counting.onoff_cls(mu, n_, m_, s_, b_, tau)
+        else:
+            r_ = counting.cls_closed_multi('qtilde', mu, [m_, n_], [0.0, s_], [tau * b_, b_])
+            w_obs, w_band = r_[2], r_[3]
+        got = [float(obs_)] + [float(x) for x in band_]; want = [w_obs] + list(w_band)
+        if any(abs(g - w) > 2e-4 + 2e-3 * abs(w) for g, w in zip(got, want)):
+            ctx.fail('C08/onoff-closed-form', 'CLs (observed / band) of an on/off model differs from the analytic value for the parameters the call holds constant', inp, got, want)
     # ---------------- refusals
     m = pyhf.Model(counting.single_bin_spec(5, 50), poi_name='mu')
     m_nopoi = pyhf.Model(counting.single_bin_spec(5, 50), poi_name=None)
